@@ -885,6 +885,8 @@ nodesLoop:
 				if stmts := tc.checkNodes([]ast.Node{node.Statement}); len(stmts) == 1 {
 					node.Statement = stmts[0]
 				}
+			} else {
+				tc.terminating = false
 			}
 
 		case *ast.Comment, *ast.Raw:
